@@ -552,8 +552,8 @@ theorem answer_send_never_blocks (c : Nat) (s : S) (h : Reachable c s) (id : Nat
 
 /-- **every send on an answer channel finds room** (the step-level form of `answer_send_never_blocks`; the answer channels
     are not objects of the model: `chanLoad s id` counts the values sent so far on the channel of request `id`, as if
-    the caller never received, and `answerChanCap` — 1 — is compared with `cap()` of the channel the code returns on every
-    run): whichever step of whichever goroutine sends an answer, the channel was EMPTY before and holds no more than
+    the caller never received, and `answerChanCap` — 1 — is checked on every run to be at most `cap()` of the channel the code
+    returns): whichever step of whichever goroutine sends an answer, the channel was EMPTY before and holds no more than
     its capacity afterwards — a send under the lock cannot block the holder -/
 theorem every_send_finds_room (c : Nat) (s s' : S) (h : Reachable c s) (st : Step s s') (id : Nat)
     (hsend : chanLoad s id < chanLoad s' id) : chanLoad s id = 0 ∧ chanLoad s' id ≤ answerChanCap := by
